@@ -27,6 +27,11 @@ class Observation:
         self.stopped = None         # description of the stop action performed
         self.caller_done = False
         self.extra_payload_objects = []
+        self.state_at_stop = None
+        self.partial_was_incremental = False
+        self.partial_error = None
+        self.result_step = None
+        self.stop_step = None
 
 
 def run_incremental(schema, doc, variables, value_fn, seed, p_async=0.5, policy='random', early=False, script=None,
@@ -47,9 +52,16 @@ def run_incremental(schema, doc, variables, value_fn, seed, p_async=0.5, policy=
         obs.hook_calls.append({'unfinished': hz.unfinished(), 'background': len(getattr(ex, 'background_futures', ()) or ()),
                                'step': sched.step})
 
+    def state_signature():
+        return (len([1 for f in sched.gates.values() if not f.done()]), len(hz.unfinished()), len(obs.payloads),
+                sum(1 for i in hz.iterators if i.started and not i.exhausted), bool(early))
+
     if stop and stop[0] == 'abort':
         def do_abort():
             obs.stopped = ('abort', sched.step)
+            obs.stop_step = sched.step
+            obs.state_at_stop = state_signature()
+            sched.freeze_gates = True       # a stop must cancel outstanding work, not wait for it
             controller.abort(stop[1])
         sched.external('abort', do_abort)
 
@@ -63,7 +75,20 @@ def run_incremental(schema, doc, variables, value_fn, seed, p_async=0.5, policy=
         except BaseException as e:  # noqa: BLE001
             obs.kind, obs.raised, obs.raised_at = 'raised', e, 'execute'
             sched.externals.pop('abort', None)
+            # a responsible caller disposes of the partial result the abort error carries: if it is an
+            # incremental one, its payload stream is closed (never iterated)
+            partial = getattr(e, 'aborted_result', None)
+            try:
+                if hasattr(partial, '__await__'):
+                    partial = await partial
+                stream = getattr(partial, 'subsequent_results', None)
+                if stream is not None:
+                    obs.partial_was_incremental = True
+                    await stream.aclose()
+            except BaseException as e2:  # noqa: BLE001
+                obs.partial_error = e2
             return obs
+        obs.result_step = sched.step
         if isinstance(result, ExecutionResult):
             obs.kind = 'single'
             obs.initial = result.formatted
@@ -78,6 +103,9 @@ def run_incremental(schema, doc, variables, value_fn, seed, p_async=0.5, policy=
             while k < max_pulls:
                 if stop and stop[0] == 'aclose' and k == stop[1]:
                     obs.stopped = ('aclose', k)
+                    obs.stop_step = sched.step
+                    obs.state_at_stop = state_signature()
+                    sched.freeze_gates = True
                     try:
                         await it.aclose()
                     except BaseException as e:  # noqa: BLE001
